@@ -310,6 +310,13 @@ def run(ck):
     # "identical bytes": the frame codec that every received frame passes through (R11.1-R11.8, shared with C11)
     c11.header_rules(ck, agg)
     handed_to_queue(ck, agg)
+    # "delivered exactly once": the destination's queue refuses a frame only as a duplicate of (origin, id, type) or when full (R12.2-R12.5,
+    # shared with C12); "over any tree": next hops follow the tree (R04.5) and re-assigning node_address re-opens the pipes (R04.8, shared with C04)
+    from . import c12, c04
+    c12.enqueue_rules(ck, agg, net.queue_field(ck.prog))
+    c04.next_hop(ck, agg, net.NetNode(ck, "rf24_network", "RF24Network"))
+    c04.child_window(ck, agg, net.NetNode(ck, "rf24_network", "RF24Network"))
+    c04.reconfigure(ck, agg)
     agg.flush()
     ck.floor("R05.1", "single-frame transmissions", n1, 1)
     ck.floor("R05.2", "validation scenarios and public senders", n2, 8)
